@@ -148,11 +148,13 @@ def run_property(prop: str, rules_fn: Callable[[Ctx], None], repo: str, tier: st
         counts: Dict[str, int] = {}
         for o in ctx.obs:
             counts[o.rule] = counts.get(o.rule, 0) + 1
+        has_violation = any(o.verdict == "violation" for o in ctx.obs)
         for rid, mn in ctx.minimums.items():
-            if counts.get(rid, 0) < mn:
+            # a definite violation stands on its own: the vacuity guard protects *passes*, not alarms
+            if counts.get(rid, 0) < mn and not has_violation:
                 errors.append(f"rule={rid} reason=only {counts.get(rid, 0)} instance(s) found, {mn} confirmed by hand (anchor vanished?)")
         for o in ctx.obs:
-            if o.verdict == "unknown":
+            if o.verdict == "unknown" and not has_violation:
                 errors.append(f"rule={o.rule} reason=cannot decide {o.key}: {o.reason}")
     except AnalysisError as e:
         errors.append(f"rule={e.rule} reason={e.reason}")
